@@ -126,6 +126,7 @@ type out struct {
 	labels   map[string]bool
 	nComment int
 	cmtAdj   bool // a comment was placed directly before or after a literal
+	ncbOps   map[*Expr]bool // binary nodes whose operator must not be preceded by a comment (known defect K7)
 }
 
 func newOut(t *rapid.T, noise int, comments bool) *out {
@@ -333,6 +334,9 @@ func (o *out) expr(e *Expr) {
 		case "=~", "!~":
 			op.nca = true
 		}
+		if o.ncbOps[e] {
+			op.ncb = true
+		}
 		o.label("op:" + e.Op)
 		o.emit(op)
 		o.operand(e, e.A[1], true)
@@ -495,7 +499,11 @@ func (g *eg) num(d int) *Expr {
 	if v := g.pickVar("num"); v != nil {
 		return v
 	}
-	k := rapid.IntRange(0, 11).Draw(t, "numK")
+	lo := 0
+	if d >= 2 {
+		lo = 5 // composite near the root
+	}
+	k := rapid.IntRange(lo, 11).Draw(t, "numK")
 	if d <= 0 && k >= 5 {
 		k = k % 5
 	}
@@ -535,7 +543,11 @@ func (g *eg) str(d int) *Expr {
 	if v := g.pickVar("str"); v != nil {
 		return v
 	}
-	k := rapid.IntRange(0, 7).Draw(t, "strK")
+	lo := 0
+	if d >= 2 {
+		lo = 4
+	}
+	k := rapid.IntRange(lo, 7).Draw(t, "strK")
 	if d <= 0 && k >= 4 {
 		k = k % 4
 	}
@@ -568,7 +580,11 @@ func (g *eg) boolean(d int) *Expr {
 	if v := g.pickVar("bool"); v != nil {
 		return v
 	}
-	k := rapid.IntRange(0, 13).Draw(t, "boolK")
+	lo := 0
+	if d >= 2 {
+		lo = 3
+	}
+	k := rapid.IntRange(lo, 13).Draw(t, "boolK")
 	if d <= 0 {
 		k = k % 4
 	}
